@@ -15,6 +15,7 @@ import (
 	bridgetypes "github.com/tellor-io/layer/x/bridge/types"
 
 	"github.com/cosmos/cosmos-sdk/crypto/hd"
+	"github.com/cosmos/cosmos-sdk/crypto/keys/secp256k1"
 	"github.com/cosmos/cosmos-sdk/crypto/keyring"
 	sdk "github.com/cosmos/cosmos-sdk/types"
 	signingtypes "github.com/cosmos/cosmos-sdk/types/tx/signing"
@@ -311,6 +312,57 @@ func RunC15(casesPath, prePath, tracePath, statsPath string) error {
 		}
 		tr.Emit(Rec{"kind": "sig", "ok": true, "siglen": len(sig), "recovers": rec && len(sig) == 64})
 		kinds["sig"]++
+	}
+	// address registration: the address the chain derives from a validator's two initial signatures against the
+	// contract's ecrecover (keccak-256 over the two coordinates as 32-byte words).  Keys whose X or Y coordinate has a
+	// leading zero byte (one key in 128) are searched for: an encoder that drops leading zeros differs only there.
+	{
+		signInit := func(k *secp256k1.PrivKey, msg string) []byte {
+			hh := sha256.Sum256([]byte(msg))
+			sig, _ := k.Sign(hh[:])
+			return sig
+		}
+		var normal, shortX, shortY []*secp256k1.PrivKey
+		for i := 0; i < 20000 && (len(shortX) < 2 || len(shortY) < 2 || len(normal) < 6); i++ {
+			pk := secp256k1.GenPrivKeyFromSecret([]byte(fmt.Sprintf("verif-c15-%d", i)))
+			pub, err := crypto.DecompressPubkey(pk.PubKey().Bytes())
+			if err != nil {
+				continue
+			}
+			switch {
+			case pub.X.BitLen() <= 248 && len(shortX) < 2:
+				shortX = append(shortX, pk)
+			case pub.Y.BitLen() <= 248 && len(shortY) < 2:
+				shortY = append(shortY, pk)
+			case len(normal) < 6:
+				normal = append(normal, pk)
+			}
+		}
+		for gi, group := range [][]*secp256k1.PrivKey{normal, shortX, shortY} {
+			for _, pk := range group {
+				pub, _ := crypto.DecompressPubkey(pk.PubKey().Bytes())
+				var xy [64]byte
+				pub.X.FillBytes(xy[:32])
+				pub.Y.FillBytes(xy[32:])
+				want := crypto.Keccak256(xy[:])[12:]
+				rec := Rec{"kind": "evmaddr", "contract": hex.EncodeToString(want), "chain": "", "group": []string{"normal", "shortx", "shorty"}[gi]}
+				res := guard(func() error {
+					cctx, _ := c.Ctx.CacheContext()
+					a, err := k.EVMAddressFromSignatures(cctx, signInit(pk, "TellorLayer: Initial bridge signature A"), signInit(pk, "TellorLayer: Initial bridge signature B"))
+					if err != nil {
+						return err
+					}
+					rec["chain"] = hex.EncodeToString(a.Bytes())
+					return nil
+				})
+				rec["ok"] = res.Ok
+				if !res.Ok {
+					rec["err"] = errClass(res.Err)
+				}
+				tr.Emit(rec)
+				kinds["evmaddr-"+rec["group"].(string)]++
+			}
+		}
 	}
 	st := map[string]any{"cases": n, "kinds": kinds, "lines": tr.N, "samples": samples}
 	if err := tr.Close(); err != nil {
